@@ -110,6 +110,7 @@ UNIT_DRIVERS = {
     "wal_sticky": ["wal::log_enum_quick"],
     "compaction_inputs": ["snapshot::reads_enum_quick"],
     "flush_protocol": ["wal::crash_enum_quick", "snapshot::timetravel_enum_quick"],
+    "queue_dequeue": ["transaction::conflict_enum"],
     "vlog_file": ["sstable::table::min_vlog_file_id_enum"],
     "lock_order": ["transaction::cursor_enum_quick"],
 }
